@@ -523,7 +523,7 @@ pub struct Gen<'a> {
 }
 
 const NAME_POOL: [&str; 14] = ["a", "b.o", "src/x.c", "dir/sub/y", "é", "日本.txt", "sp ace", "co:lon", "do$lar", "with-dash_1", "../up/f", "./dot/g", "a//b", "q/../r"];
-const VAR_NAMES: [&str; 6] = ["a", "b", "flags", "dir", "x_1", "v.dot"];
+const VAR_NAMES: [&str; 7] = ["a", "b", "flags", "dir", "x_1", "v.dot", "opt-level"];
 
 impl<'a> Gen<'a> {
     pub fn new(rng: &'a mut Rng, prop: &'a str) -> Gen<'a> {
